@@ -17,11 +17,15 @@ macro_rules! step {
 step!(c01_announce_v4_small_n0, Ipv4AddrBytes, 0, 1, 3, 7, false, false);
 step!(c01_announce_v4_small_n1, Ipv4AddrBytes, 1, 2, 4, 7, false, false);
 step!(c01_announce_v4_small_n2, Ipv4AddrBytes, 2, 3, 5, 7, false, false);
-step!(c01_announce_v4_large_n3, Ipv4AddrBytes, 3, 4, 6, 7, true, false);
-step!(c01_announce_v4_large_n4, Ipv4AddrBytes, 4, 5, 7, 7, true, false);
-step!(c01_announce_v4_large_n5, Ipv4AddrBytes, 5, 6, 8, 7, true, false);
+// heap maps: counts + post-state (groups 1|2) and reply list (group 4) as separate queries
+step!(c01_announce_v4_large_n3_state, Ipv4AddrBytes, 3, 4, 6, 3, true, false);
+step!(c01_announce_v4_large_n3_reply, Ipv4AddrBytes, 3, 4, 6, 4, true, false);
+step!(c01_announce_v4_large_n4_state, Ipv4AddrBytes, 4, 5, 7, 3, true, false);
+step!(c01_announce_v4_large_n4_reply, Ipv4AddrBytes, 4, 5, 7, 4, true, false);
+step!(c01_announce_v4_large_n5_state, Ipv4AddrBytes, 5, 6, 8, 3, true, false);
+step!(c01_announce_v4_large_n5_reply, Ipv4AddrBytes, 5, 6, 8, 4, true, false);
 step!(c01_announce_v6_small_n2, Ipv6AddrBytes, 2, 3, 5, 7, false, false);
-step!(c01_announce_v6_large_n3, Ipv6AddrBytes, 3, 4, 6, 7, true, false);
+step!(c01_announce_v6_large_n3_state, Ipv6AddrBytes, 3, 4, 6, 3, true, false);
 // C20: statistics messages on, tally group only
 step!(c20_tally_v4_small_n1, Ipv4AddrBytes, 1, 2, 4, 8, false, true);
 step!(c20_tally_v4_small_n2, Ipv4AddrBytes, 2, 3, 5, 8, false, true);
@@ -29,37 +33,7 @@ step!(c20_tally_v4_large_n3, Ipv4AddrBytes, 3, 4, 6, 8, true, true);
 
 
 
-#[kani::proof]
-#[kani::unwind(5)]
-#[kani::stub(crossbeam_channel::Sender::try_send, aquatic_udp::swarm::verif_harness::log_try_send)]
-fn dbg_re_a() {
-    h::dbg_announce_n2_re(false, 0);
-}
-#[kani::proof]
-#[kani::unwind(5)]
-#[kani::stub(crossbeam_channel::Sender::try_send, aquatic_udp::swarm::verif_harness::log_try_send)]
-fn dbg_re_b() {
-    h::dbg_announce_n2_re(true, 0);
-}
-#[kani::proof]
-#[kani::unwind(5)]
-#[kani::stub(crossbeam_channel::Sender::try_send, aquatic_udp::swarm::verif_harness::log_try_send)]
-fn dbg_re_c() {
-    h::dbg_announce_n2_re(false, 1);
-}
-#[kani::proof]
-#[kani::unwind(5)]
-#[kani::stub(crossbeam_channel::Sender::try_send, aquatic_udp::swarm::verif_harness::log_try_send)]
-fn dbg_re_d() {
-    h::dbg_announce_n2_re(true, 1);
-}
 
-#[kani::proof]
-#[kani::unwind(5)]
-#[kani::stub(crossbeam_channel::Sender::try_send, aquatic_udp::swarm::verif_harness::log_try_send)]
-fn dbg_announce_n2() {
-    h::dbg_announce_n2();
-}
 
 #[cfg(verif_pb_c01)]
 include!(env!("VERIF_PLAYBACK_FILE"));
